@@ -62,6 +62,20 @@ func buildOps() []hop {
 			return s + "|" + errStr(err), []string{s}
 		}, ref.HOTP(hopKey, c, d, a) + "|<nil>"})
 	}
+	// keys LONGER than the hash block (HMAC replaces them by their digest first): two different ones per hash
+	for i, spec := range []struct {
+		name string
+		n, a int
+		fill byte
+	}{{"hotp-longkey-sha1-a", 70, 0, 0x21}, {"hotp-longkey-sha1-b", 100, 0, 0x42}, {"hotp-longkey-sha512-a", 129, 2, 0x33}, {"hotp-longkey-sha512-b", 200, 2, 0x55}} {
+		key := patt(spec.n, spec.fill)
+		sec := ref.B32Encode(key)
+		c, d, a := uint64(7+i), 6+i%3, spec.a
+		ops = append(ops, hop{spec.name, func() (string, []string) {
+			s, err := otp.GenerateHOTP(sec, c, &otp.Param{Digits: otp.Digits(d), Algorithm: otp.Algorithm(a)})
+			return s + "|" + errStr(err), []string{s}
+		}, ref.HOTP(key, c, d, a) + "|<nil>"})
+	}
 	gen("hotp-c1", 1, 6, 0)
 	gen("hotp-c2^40-sha256-8", 1<<40, 8, 1)
 	gen("hotp-10digits", 7, 10, 2)
